@@ -127,7 +127,11 @@ type Expect struct {
 	Name string
 	Op   uint32
 	From string
-	Rec  RawRec
+	// AltFrom: the MOVED_FROM half of this move was itself optional (its watch was
+	// being removed), so the Create may or may not carry the old name
+	AltFrom string
+	HasAlt  bool
+	Rec     RawRec
 }
 
 type Ideal struct {
@@ -135,7 +139,9 @@ type Ideal struct {
 	bySpelling map[string]*Entry
 	retired    map[int]retiredWd
 	cookies    map[uint32]string
+	mayCookies map[uint32]string // cookies of MOVED_FROM records whose delivery was optional
 	wdIno      map[int]uint64
+	CustomOps  bool      // watches were added with a non-default operation set
 	Problems   []Problem // API-level disagreements found while feeding the model
 	ExpRm      []int     // kernel watches the model expects to have been released
 }
@@ -149,7 +155,7 @@ type Problem struct {
 }
 
 func NewIdeal() *Ideal {
-	return &Ideal{byWd: map[int]*Entry{}, bySpelling: map[string]*Entry{}, retired: map[int]retiredWd{}, cookies: map[uint32]string{}, wdIno: map[int]uint64{}}
+	return &Ideal{byWd: map[int]*Entry{}, bySpelling: map[string]*Entry{}, retired: map[int]retiredWd{}, cookies: map[uint32]string{}, mayCookies: map[uint32]string{}, wdIno: map[int]uint64{}}
 }
 
 func (m *Ideal) problem(cat, sig, detail string) {
@@ -290,6 +296,15 @@ func (m *Ideal) Record(r RawRec) Expect {
 				if x.Op == 0 {
 					x.Kind = "none"
 				}
+				if r.Cookie != 0 && r.Mask&inMOVEDFROM != 0 {
+					m.mayCookies[r.Cookie] = x.Name
+				}
+				if r.Cookie != 0 && r.Mask&inMOVEDTO != 0 {
+					x.From = m.cookies[r.Cookie]
+					if n, ok := m.mayCookies[r.Cookie]; ok && x.From == "" {
+						x.AltFrom, x.HasAlt = n, true
+					}
+				}
 			}
 			if r.Mask&inIGNORED != 0 {
 				delete(m.retired, int(r.Wd))
@@ -308,6 +323,11 @@ func (m *Ideal) Record(r RawRec) Expect {
 		delete(m.byWd, e.Wd)
 		if m.bySpelling[e.Spelling] == e {
 			delete(m.bySpelling, e.Spelling)
+		}
+		if r.Mask&inIGNORED != 0 && !m.CustomOps {
+			// the kernel dropped a watch that is still listed although neither this Watcher
+			// removed it nor its file was deleted (that would have come as IN_DELETE_SELF first)
+			m.problem("foreign", "a kernel watch of this Watcher was removed by someone else", fmt.Sprintf("unexplained IN_IGNORED for wd %d (%q)", e.Wd, e.Spelling))
 		}
 		return Expect{Kind: "none", Rec: r}
 	}
@@ -335,6 +355,9 @@ func (m *Ideal) Record(r RawRec) Expect {
 			m.cookies[r.Cookie] = name
 		} else if r.Mask&inMOVEDTO != 0 {
 			x.From = m.cookies[r.Cookie]
+			if n, ok := m.mayCookies[r.Cookie]; ok && x.From == "" {
+				x.AltFrom, x.HasAlt = n, true
+			}
 		}
 	}
 	return x
@@ -359,6 +382,26 @@ func opText(o uint32) string {
 	return strings.Join(p, "|")
 }
 
+// altOK decides the old name of a Create whose MOVED_FROM half was optional:
+// if the Rename of that name was in fact delivered (and not yet claimed by
+// another Create) the Create must carry it, otherwise it must carry none.
+func altOK(w Expect, got []Got, j int) bool {
+	delivered := false
+	for k := j - 1; k >= 0; k-- {
+		if got[k].Op&opCreate != 0 && got[k].From == w.AltFrom {
+			break
+		}
+		if got[k].Op&opRename != 0 && got[k].Name == w.AltFrom {
+			delivered = true
+			break
+		}
+	}
+	if delivered {
+		return got[j].From == w.AltFrom
+	}
+	return got[j].From == ""
+}
+
 // Align compares the expectation list with what arrived, in order.
 func Align(exp []Expect, got []Got) []Problem {
 	var out []Problem
@@ -372,6 +415,19 @@ func Align(exp []Expect, got []Got) []Problem {
 	for _, e := range exp {
 		if e.Kind == "must" || e.Kind == "may" {
 			want = append(want, e)
+		}
+	}
+	// fast path: nothing optional and identical in order
+	if len(want) == len(got) {
+		same := true
+		for i, w := range want {
+			if w.Name != got[i].Name || w.Op != got[i].Op || !w.HasAlt && w.From != got[i].From || w.HasAlt && !altOK(w, got, i) {
+				same = false
+				break
+			}
+		}
+		if same {
+			return out
 		}
 	}
 	// backtracking alignment: every got matches a want in order; skipped wants must be "may"
@@ -395,7 +451,7 @@ func Align(exp []Expect, got []Got) []Problem {
 		}
 		w := want[i]
 		r := false
-		if w.Name == got[j].Name && w.Op == got[j].Op && w.From == got[j].From {
+		if w.Name == got[j].Name && w.Op == got[j].Op && (!w.HasAlt && w.From == got[j].From || w.HasAlt && altOK(w, got, j)) {
 			r = rec(i+1, j+1)
 		}
 		if !r && w.Kind == "may" {
@@ -430,45 +486,102 @@ func Align(exp []Expect, got []Got) []Problem {
 	for _, g := range got {
 		gotCount[key(g.Name, g.Op, g.From)]++
 	}
-	lost, extra := 0, 0
-	var lostK, extraK string
-	for k, n := range mustCount {
-		if gotCount[k] < n {
-			lost += n - gotCount[k]
-			lostK = k
+	for _, w := range want {
+		if !w.HasAlt {
+			continue
+		}
+		for j := range got {
+			if got[j].Name == w.Name && got[j].Op == w.Op && !altOK(w, got, j) {
+				out = append(out, Problem{"from", fmt.Sprintf("Create does not carry the old name of the Rename delivered for the same move (or carries one without it): got %q, Rename name %q", got[j].From, w.AltFrom), describe()})
+				return out
+			}
 		}
 	}
-	for k, n := range gotCount {
-		if n > mustCount[k]+mayCount[k] {
-			extra += n - mustCount[k] - mayCount[k]
-			extraK = k
+	// unmatched musts and unbacked gots, then pair them up: same operation but
+	// another name = misspelling (C08); same name and operation but another old
+	// name = wrong rename correlation (C11); the rest is lost / phantom
+	type ev struct {
+		name string
+		op   uint32
+		from string
+	}
+	var lostL, extraL []ev
+	for _, w := range want {
+		k := key(w.Name, w.Op, w.From)
+		if w.Kind == "must" {
+			if gotCount[k] > 0 {
+				gotCount[k]--
+			} else {
+				lostL = append(lostL, ev{w.Name, w.Op, w.From})
+			}
 		}
 	}
-	clean := func(k string) string { return strings.ReplaceAll(k, "\x00", " ") }
-	switch {
-	case lost == 0 && extra == 0:
+	for _, w := range want {
+		k := key(w.Name, w.Op, w.From)
+		if w.Kind == "may" && gotCount[k] > 0 {
+			gotCount[k]--
+		}
+	}
+	for _, g := range got {
+		k := key(g.Name, g.Op, g.From)
+		if gotCount[k] > 0 {
+			gotCount[k]--
+			extraL = append(extraL, ev{g.Name, g.Op, g.From})
+		}
+	}
+	_ = mustCount
+	_ = mayCount
+	if len(lostL) == 0 && len(extraL) == 0 {
 		out = append(out, Problem{"order", "events delivered in a different order than the kernel reported them", describe()})
-	case lost > 0 && extra > 0 && lost == extra:
-		// same number: is it only the name, or only the old name, that differs?
-		lp, ep := strings.Split(lostK, "\x00"), strings.Split(extraK, "\x00")
-		switch {
-		case lp[0] == ep[0] && lp[1] == ep[1]:
-			out = append(out, Problem{"from", "Create carries the wrong old name: want " + lp[2] + " got " + ep[2], describe()})
-		case lp[1] == ep[1]:
-			out = append(out, Problem{"name", fmt.Sprintf("event name misspelled: want %q got %q", lp[0], ep[0]), describe()})
-		default:
-			out = append(out, Problem{"lost", "kernel notification not delivered: " + clean(lostK), describe()})
-			out = append(out, Problem{"phantom", "event delivered that no kernel notification backs: " + clean(extraK), describe()})
+		return out
+	}
+	used := make([]bool, len(extraL))
+	var restLost []ev
+	for _, l := range lostL {
+		paired := false
+		for i, e := range extraL {
+			if used[i] {
+				continue
+			}
+			if e.name == l.name && e.op == l.op && e.from != l.from {
+				out = append(out, Problem{"from", fmt.Sprintf("Create carries the wrong old name: want %q got %q", l.from, e.from), describe()})
+				used[i], paired = true, true
+				break
+			}
 		}
-	default:
-		if lost > 0 {
-			out = append(out, Problem{"lost", "kernel notification not delivered: " + clean(lostK), describe()})
+		if paired {
+			continue
 		}
-		if extra > 0 {
-			out = append(out, Problem{"phantom", "event delivered that no kernel notification backs: " + clean(extraK), describe()})
+		for i, e := range extraL {
+			if used[i] {
+				continue
+			}
+			if e.op == l.op && e.from == l.from && e.name != l.name {
+				out = append(out, Problem{"name", fmt.Sprintf("event name misspelled: want %q got %q", short(l.name), short(e.name)), describe()})
+				used[i], paired = true, true
+				break
+			}
+		}
+		if !paired {
+			restLost = append(restLost, l)
+		}
+	}
+	for _, l := range restLost {
+		out = append(out, Problem{"lost", fmt.Sprintf("kernel notification not delivered: %s %q", opText(l.op), short(l.name)), describe()})
+	}
+	for i, e := range extraL {
+		if !used[i] {
+			out = append(out, Problem{"phantom", fmt.Sprintf("event delivered that no kernel notification backs: %s %q", opText(e.op), short(e.name)), describe()})
 		}
 	}
 	return out
 }
 
 var _ = os.Stat
+
+func short(n string) string {
+	if len(n) > 40 {
+		return fmt.Sprintf("%s...(%d bytes)", n[:24], len(n))
+	}
+	return n
+}
